@@ -415,23 +415,6 @@ def translator_selftest(ctx, res: Result):
 
 
 # =================================================================== lock-step: Pipeline model under the filter's mask
-def cookie_blind_merge(run, out):
-    """True iff the first difference between the model's and the real raw streams is a model record that equals its
-    predecessor in (wd, mask, name) and differs only in the cookie, which the real kernel has merged away."""
-    obs = out[3] if out[0] == "crash" else out[1] if out[0] == "ok" else []
-    real, model = [], []
-    for i, e in enumerate(run.log):
-        if e["a"] != "read" or i >= len(obs):
-            continue
-        real += [[r[0], r[1], bytes(r[3])] for r in e["raw"]]
-        if isinstance(obs[i], list):
-            model += [[int(x[0]), int(x[1]), bytes.fromhex(x[3][1:])] for x in obs[i][1:]]
-    for j, m in enumerate(model):
-        if j >= len(real) or real[j] != m:
-            return j > 0 and model[j - 1] == m
-    return False
-
-
 def lockstep_filtered(ctx, res: Result):
     """The REAL gated observer, scheduled with event_filter=F, against the extracted Pipeline model configured the way
     C11_transparent_sequential(_all) configures the filtered watch: c_mask = the event bits of mask_of_filter F,
@@ -494,16 +477,6 @@ def lockstep_filtered(ctx, res: Result):
     for (meta, run, _), o in zip(batch, outs):
         res.traces_validated += 1
         diffs = pipe.compare(run, o)
-        if diffs and diffs[0][0].startswith("raw kernel records") and cookie_blind_merge(run, o):
-            # KNOWN GAP OF THE KERNEL MODEL (coq/Model/Fs.v, not of C11): the real kernel coalesces an unread record
-            # with its predecessor when wd, mask and name agree - it does not compare the cookie; Fs.kraw_eqb does.
-            # Reported to the owners of Fs.v; such a history says nothing about the filter.
-            res.hist("lockstep_excluded_kernel_cookie_blind_merge", "+".join(meta["filter"])[:40])
-            if not any("cookie-blind" in n_ for n_ in res.notes):
-                res.notes.append("lock-step: excluded histories in which the real kernel merged two adjacent records that "
-                                 "differ only in their cookie (kernel-model gap in Fs.kraw_eqb, independent of the filter); "
-                                 f"first: filter={meta['filter']} recursive={meta['recursive']} history={meta['history']}")
-            continue
         if diffs:
             what, idx, m, r = diffs[0]
             res.mismatches.append(Mismatch(meta["pair"] + ": " + what, {k: v for k, v in meta.items() if k != "pair"} | {"at_action": idx},
